@@ -96,6 +96,61 @@ pub fn http_call(addr: &str, r: &RawReq) -> Result<(HttpInfo, Vec<u8>), String> 
     parse_response(&buf)
 }
 
+/// One upload in chunked transfer encoding whose pieces are sent one at a time by the caller.
+pub struct Upload {
+    s: TcpStream,
+}
+
+impl Upload {
+    pub fn begin(addr: &str, uri: &str, headers: &[(String, Vec<u8>)]) -> Result<Upload, String> {
+        let tmo = std::env::var("TCSS_SOCK_TIMEOUT").ok().and_then(|x| x.parse::<u64>().ok()).unwrap_or(60);
+        let mut s = TcpStream::connect(addr).map_err(|e| format!("connect {addr}: {e}"))?;
+        s.set_read_timeout(Some(Duration::from_secs(tmo))).ok();
+        s.set_write_timeout(Some(Duration::from_secs(tmo))).ok();
+        s.set_nodelay(true).ok();
+        let mut head: Vec<u8> = format!("POST {uri} HTTP/1.1\r\nHost: {addr}\r\nConnection: close\r\n").into_bytes();
+        for (k, v) in headers {
+            head.extend_from_slice(k.as_bytes());
+            head.extend_from_slice(b": ");
+            head.extend_from_slice(v);
+            head.extend_from_slice(b"\r\n");
+        }
+        head.extend_from_slice(b"Transfer-Encoding: chunked\r\n\r\n");
+        s.write_all(&head).map_err(|e| e.to_string())?;
+        s.flush().ok();
+        Ok(Upload { s })
+    }
+    pub fn send(&mut self, piece: &[u8]) {
+        if piece.is_empty() {
+            return;
+        }
+        let _ = self.s.write_all(format!("{:x}\r\n", piece.len()).as_bytes());
+        let _ = self.s.write_all(piece);
+        let _ = self.s.write_all(b"\r\n");
+        let _ = self.s.flush();
+    }
+    /// end of body; read the response
+    pub fn finish(mut self) -> Result<(HttpInfo, Vec<u8>), String> {
+        let _ = self.s.write_all(b"0\r\n\r\n");
+        let _ = self.s.flush();
+        let mut buf: Vec<u8> = vec![];
+        let mut tmp = [0u8; 65536];
+        loop {
+            match self.s.read(&mut tmp) {
+                Ok(0) => break,
+                Ok(n) => buf.extend_from_slice(&tmp[..n]),
+                Err(e) => {
+                    if buf.is_empty() {
+                        return Err(format!("read: {e}"));
+                    }
+                    break;
+                }
+            }
+        }
+        parse_response(&buf)
+    }
+}
+
 fn parse_response(buf: &[u8]) -> Result<(HttpInfo, Vec<u8>), String> {
     let pos = buf.windows(4).position(|w| w == b"\r\n\r\n").ok_or_else(|| format!("no header end in {} bytes", buf.len()))?;
     let head = String::from_utf8_lossy(&buf[..pos]).to_string();
@@ -174,9 +229,15 @@ impl SockDriver {
     }
     pub fn stop(&mut self) {
         if let Some((h, t)) = self.inproc.take() {
-            let sys = actix_rt::System::new();
-            sys.block_on(h.stop(false));
-            let _ = t.join();
+            // bounded: a worker that is stuck for good (it is the code under test) must not hang the harness
+            let (tx, rx) = std::sync::mpsc::channel();
+            std::thread::spawn(move || {
+                let sys = actix_rt::System::new();
+                sys.block_on(h.stop(false));
+                let _ = t.join();
+                let _ = tx.send(());
+            });
+            let _ = rx.recv_timeout(Duration::from_secs(10));
         }
         if let Some(mut c) = self.child.take() {
             let _ = c.kill(); // SIGKILL
@@ -218,6 +279,7 @@ pub fn start_inproc(
     cfg: taskchampion_sync_server_core::ServerConfig,
     allow: Option<std::collections::HashSet<Uuid>>,
     storage: crate::base::Shared,
+    workers: usize,
 ) -> anyhow::Result<SockDriver> {
     let ws = taskchampion_sync_server::WebServer::new(cfg, allow, storage);
     let (tx, rx) = std::sync::mpsc::channel();
@@ -225,7 +287,7 @@ pub fn start_inproc(
         let sys = actix_rt::System::new();
         let _ = sys.block_on(async move {
             let srv = actix_web::HttpServer::new(move || actix_web::App::new().configure(|c| ws.config(c)))
-                .workers(2)
+                .workers(workers.max(1))
                 .disable_signals()
                 .bind("127.0.0.1:0");
             match srv {
